@@ -22,6 +22,7 @@ EXPLANATION = (
     "form minus day equals MONTHS_OFFSETS, quarter maps 1..12 to 1,1,1,2,..,4; (5) the delegating getters call "
     "the stdlib function with self's fields. NOT decided: agreement of the year-dependent closed forms with the "
     "calendar over all 9999 years / all timestamps (enumeration - a different technique)."
+    ' is_long_year is also decided when its helper is inlined (straight-line locals substituted).'
 )
 
 
